@@ -36,27 +36,27 @@ var (
 )
 
 type vcs struct {
-	c        *mc.Chooser
-	head     map[string][]byte
-	headVer  int
-	log      []string
-	spaces   []*ws
-	results  []string
-	commits  []int // workspace index of each successful commit
-	concur   []string
+	c                *mc.Chooser
+	head             map[string][]byte
+	headVer          int
+	log              []string
+	spaces           []*ws
+	results          []string
+	commits          []int // workspace index of each successful commit
+	concur           []string
 	lastErrRetriable []bool
 	opsAfterEnd      int
 	finished         bool
 }
 
 type ws struct {
-	v         *vcs
-	id        int
-	base      map[string][]byte
-	baseVer   int
-	writes    map[string][]byte
-	destroyed int
-	committed bool
+	v                       *vcs
+	id                      int
+	base                    map[string][]byte
+	baseVer                 int
+	writes                  map[string][]byte
+	destroyed               int
+	committed               bool
 	readManifestBeforeWrite bool
 	readManifest            bool
 	staleUse                int // operations after Destroy or after a newer workspace exists
@@ -226,7 +226,7 @@ func runOne(f *fixture, budget int, c *mc.Chooser) (v *vcs, err error, panicked 
 
 func main() {
 	r := mc.NewRun("C14")
-	r.Rule("E1 full choice tree: --keep_going off/on x per attempt {concurrent writer before the attempt: no/yes} x GetChangeOps{ok,retriable,permanent} x each ReadFile/WriteOrCreateFiles/SetBinaryWritable{ok,retriable,permanent} x TryCommit{ok,retriable,permanent,concurrent-writer-conflict}; for every retry budget; non-trivial = distinct (budget, per-attempt outcome sequence) with at least one injected failure or concurrent writer")
+	r.Rule("E1 full choice tree: --keep_going off/on x per attempt {concurrent writer before the attempt: no/yes} x GetChangeOps{ok,retriable,permanent} x each ReadFile/WriteOrCreateFiles/SetBinaryWritable{ok,retriable,permanent} x TryCommit{ok,retriable,permanent,concurrent-writer-conflict}; for every retry budget -2..2 (thorough 3); plus two scripted deep lines each for budgets 31, 32, 33, 64; non-trivial = distinct (budget, per-attempt outcome sequence) with at least one injected failure or concurrent writer")
 	r.Assume("the back end reports a commit against a moved head as a retriable conflict (scripted double does)")
 	r.Assume("'retries-plus-one' is read as max(budget,0)+1 for negative budgets")
 	auth, err := fx.NewAuthority(fx.T0, "c14")
